@@ -706,6 +706,12 @@ struct SendBackoff {
             auto deadline = std::chrono::steady_clock::now() +
                 std::chrono::microseconds(yield_usec);
             while (!push_fn(x)) {
+#ifdef PHOTON_VERIF
+                if (photon_verif_sp) {      // no real sleeping while holding the turn
+                    photon_verif_sp(PHOTON_VERIF_SP_BUSYWAIT, nullptr);
+                    continue;
+                }
+#endif
                 if (yt > 0 &&
                     std::chrono::steady_clock::now() < deadline) {
                     yt--;
